@@ -206,8 +206,9 @@ def run_family(prefix, n_quick, n_thorough, profiles):
     return f
 
 
-def add_faults(casefn, kinds, frac=0.6):
-    """wrap a family: a fraction of the cases gets one driver fault at a random call index"""
+def add_faults(casefn, kinds, frac=0.6, cont=0.0):
+    """wrap a family: a fraction of the cases gets one driver fault at a random call index;
+    with probability `cont` the caller keeps iterating after an IO error item"""
     def f(seed, tier):
         cases = casefn(seed, tier)
         rng = random.Random(seed ^ 0xFA17)
@@ -215,6 +216,10 @@ def add_faults(casefn, kinds, frac=0.6):
             if rng.random() < frac:
                 nsig = len(c["sigs"]) + 3
                 c["faults"] = gen.gen_faults(rng, c, nsig, rng.choice([1, 2, 3, 5, 8, 12]), kinds)
+                if rng.random() < 0.3:
+                    c["faults"] += gen.gen_faults(rng, c, nsig, rng.choice([2, 4, 6, 9]), kinds)
+                if rng.random() < cont:
+                    c["cont"] = 1
         return cases
     return f
 
@@ -420,10 +425,11 @@ PROPS["C05"] = {
 }
 
 PROPS["C06"] = {
-    "cases": run_family("c06", 500, 20000, [
+    "cases": add_faults(run_family("c06", 500, 20000, [
         {"n_bidir": 1, "pC": 0.05, "pX": 0.05, "maxdepth": 1, "reads": 0.0, "pZ": 0.1, "wide": True},
         {"n_bidir": 2, "pC": 0.1, "pX": 0.1, "maxdepth": 2, "reads": 0.2, "declare": 0.3, "odd_names": True},
-    ]),
+        {"n_bidir": 1, "pC": 0.0, "pX": 0.0, "maxdepth": 2, "reads": 0.0, "wrow": 0.8, "small": True},
+    ]), ["err", "drop", "swap"], 0.3, cont=1.0),
     "tags": ("BIND", "SIGNALS", "NEW", "CALL", "ROW", "ITEM", "END"),
     "nontrivial": nontrivial_rows(2),
     "oracles": [signal_order_oracle, no_panic_oracle],
@@ -485,6 +491,31 @@ def py_eval(e, env):
     return {"=": l == r, "!=": l != r, "<": l < r, ">": l > r, "<=": l <= r, ">=": l >= r}[op] and 1 or 0
 
 
+def climb(seq):
+    """reference parser for a flat sequence atom op atom op ... : precedence climbing, left associative;
+    levels as the property lists them (tightest first)"""
+    level = {}
+    for i, ops in enumerate([["*", "/", "%"], ["+", "-"], ["<<", ">>"], ["&"], ["^"], ["|"], ["<", ">", "<=", ">="], ["=", "!="]]):
+        for o in ops:
+            level[o] = i
+    pos = [0]
+
+    def parse(max_level):
+        # parse an expression whose operators all have level <= max_level
+        if max_level < 0:
+            a = seq[pos[0]]
+            pos[0] += 1
+            return a
+        left = parse(max_level - 1)
+        while pos[0] < len(seq) and level[seq[pos[0]]] == max_level:
+            op = seq[pos[0]]
+            pos[0] += 1
+            right = parse(max_level - 1)
+            left = ("bin", op, left, right)
+        return left
+    return parse(7)
+
+
 def c08_cases(seed, tier):
     rng = random.Random(seed ^ 0xC08)
     cases = []
@@ -501,6 +532,31 @@ def c08_cases(seed, tier):
                 rows.append((op, a, b))
     if tier == "quick":
         rows = rows[::7] + [r for r in rows if r[0] in ("/", "%", "<<", ">>") and (r[1] == MIN64 or r[2] in (-1, 0, 64))]
+    zero_rows = [r_ for r_ in rows if r_[0] in ("/", "%") and r_[2] == 0]
+    rows = [r_ for r_ in rows if not (r_[0] in ("/", "%") and r_[2] == 0)]
+    for zi, (op, a, b) in enumerate(zero_rows[:: (3 if tier == "quick" else 1)]):
+        src = "A V\ndeclare V = Q;\nlet a = %s;\n0 (a %s 0)\n" % ((str(a) if a >= 0 else lit64(a)[1:-1]), op)
+        cases.append({"id": "c08-zero-%d" % zi, "kind": "run", "src": src, "sigs": sigs, "layout": [1], "table": [["1"]],
+                      "echo": 0, "wdefault": 0, "faults": [], "max": 10, "seed": 1, "c08": ["err"]})
+    # (1b) precedence chains: every triple of binary operators between four atoms, no parentheses
+    # (exhaustive: 16^3 = 4096 expressions); expected value from an independent precedence-climbing parser
+    atoms = [("num", 7), ("num", 3), ("num", 2), ("num", 5)]
+    chain_rows = []
+    for o1 in gen.BINOPS:
+        for o2 in gen.BINOPS:
+            for o3 in gen.BINOPS:
+                chain_rows.append((o1, o2, o3))
+    if tier == "quick":
+        chain_rows = chain_rows[::3]
+    for ci in range(0, len(chain_rows), 200):
+        part = chain_rows[ci:ci + 200]
+        lines = ["A V", "declare V = Q;"]
+        exp = []
+        for o1, o2, o3 in part:
+            lines.append("0 (7 %s 3 %s 2 %s 5)" % (o1, o2, o3))
+            exp.append(py_eval(climb([atoms[0], o1, atoms[1], o2, atoms[2], o3, atoms[3]]), {}))
+        cases.append({"id": "c08-chain-%d" % ci, "kind": "run", "src": "\n".join(lines) + "\n", "sigs": sigs, "layout": [1], "table": [["1"]],
+                      "echo": 0, "wdefault": 0, "faults": [], "max": 100000, "seed": 1, "c08": exp})
     chunk = 150
     for ci in range(0, len(rows), chunk):
         part = rows[ci:ci + chunk]
@@ -585,7 +641,7 @@ PROPS["C17"] = {
         {"random": 0.6, "maxdepth": 3, "pC": 0.05, "pX": 0.05, "reads": 0.2, "declare": 0.0, "small": True},
         {"random": 0.8, "maxdepth": 2, "wlet": 0.35, "reads": 0.0},
     ]),
-    "tags": RUN_TAGS,
+    "tags": RUN_TAGS + ("RNG",),
     "nontrivial": lambda c, t: any(x == "RNG" and r.strip() for x, r in t),
     "oracles": [rng_oracle, no_panic_oracle],
     "rule": "seeded programs with random(n) in row entries, lets, loop bounds, while conditions and ite branches, n in {2,3,10,100,2^31,2^62}, resetRandom at statement level; seeds from the case PRNG "
